@@ -574,3 +574,22 @@ func zzParse(text string) *ast.Document {
 	}
 	return doc
 }
+
+func zzFragsOf(doc *ast.Document) map[string]*ast.FragmentDefinition {
+	m := map[string]*ast.FragmentDefinition{}
+	for _, d := range doc.Definitions {
+		if x, ok := d.(*ast.FragmentDefinition); ok {
+			m[x.Name.Value] = x
+		}
+	}
+	return m
+}
+
+func zzOpOf(doc *ast.Document) *ast.OperationDefinition {
+	for _, d := range doc.Definitions {
+		if x, ok := d.(*ast.OperationDefinition); ok {
+			return x
+		}
+	}
+	return nil
+}
